@@ -51,6 +51,11 @@ args_ym_cancel = st.builds(
            {"weeks": -((365 * y + 30 * mo) // 7), "days": -((365 * y + 30 * mo) % 7) + eps_d, "microseconds": eps_us} if how == 1 else
            {"days": -(365 * y + 30 * mo) + split + eps_d, "hours": -24 * split, "seconds": eps_us, "milliseconds": -1000 * eps_us})),
     st.integers(-6, 6), st.integers(-80, 80), st.integers(-3, 3), st.sampled_from([0, 0, 1, -1]), st.sampled_from([0, 0, 1, -1, 500000]), st.integers(0, 2))
+# the part without years/months exceeds timedelta's own range (10^9 days) while years/months of the other sign bring the total back inside it:
+# an intermediate native timedelta of the day/time arguments alone would overflow although the Duration is representable
+args_huge_cancel = st.builds(
+    lambda sg, k, extra, us: {"years": -sg * ((k + extra) // 365 + 1), "days": sg * (10**9 + k), "microseconds": us},
+    st.sampled_from([1, -1]), st.integers(0, 2000), st.integers(0, 400), st.sampled_from([0, 1, -1]))
 args_huge = st.fixed_dictionaries({"days": st.integers(-999999000, 999999000)}, optional={"seconds": st.integers(-86399, 86399), "microseconds": st.integers(-999999, 999999)})
 
 COMP = ("weeks", "remaining_days", "hours", "minutes", "remaining_seconds", "microseconds")
@@ -58,6 +63,7 @@ PERMS = list(itertools.permutations(range(6)))
 
 
 class Normalise(Sub):
+    ambient = True
     name = "normalise"
     backends = ("py",)
     n = {"quick": 40000, "thorough": 1000000}
@@ -65,14 +71,17 @@ class Normalise(Sub):
     rule = "non-trivial: mixed signs among the arguments, or a non-zero sub-second part with a negative total, or a carry across units"
 
     def strategy(self, ctx):
-        return st.one_of(args_small, args_small, args_big, args_cancel, args_ym_cancel, args_huge)
+        return st.one_of(args_small, args_small, args_big, args_cancel, args_ym_cancel, args_huge, args_huge_cancel)
 
     def check(self, case, ctx):
         kw = case
         y, mo = kw.get("years", 0), kw.get("months", 0)
         rest_kw = {k: v for k, v in kw.items() if k not in ("years", "months")}
+        UNIT = {"weeks": 7 * 86400 * US, "days": 86400 * US, "hours": 3600 * US, "minutes": 60 * US, "seconds": US, "milliseconds": 1000, "microseconds": 1}
+        part = sum(v * UNIT[k] for k, v in rest_kw.items())        # exact integers: the day/time arguments alone may exceed timedelta's range
+        total_us = part + (y * 365 + mo * 30) * 86400 * US
         try:
-            nat = D.timedelta(days=y * 365 + mo * 30) + D.timedelta(**rest_kw)
+            nat = D.timedelta(days=total_us // (86400 * US), microseconds=total_us % (86400 * US))
         except OverflowError:
             raise Skip("native timedelta overflows")
         d = Duration(**kw)
@@ -83,7 +92,6 @@ class Normalise(Sub):
         req(d.days == raw(nat)[0], "days property differs from timedelta.days", got=d.days)
         pd = pendulum.duration(**kw)
         req(type(pd) is Duration and raw(pd) == raw(d), "pendulum.duration() differs from Duration()")
-        part = tdus(D.timedelta(**rest_kw))
         total = tdus(nat)
         signs = {(v > 0) - (v < 0) for v in kw.values()} - {0}
         nt = len(signs) > 1 or (part < 0 and part % US != 0) or any(abs(v) >= lim for k, v in rest_kw.items()
@@ -123,6 +131,7 @@ class Normalise(Sub):
 
 
 class Absolute(Sub):
+    ambient = True
     name = "absolute_duration"
     backends = ("py",)
     n = {"quick": 6000, "thorough": 100000}
